@@ -98,6 +98,20 @@ let next_wd_spec (day : z) (w : z) (dir : int) : z =
     if weekday_of_days cand = w then cand else if k > 8 then cand else go (k + 1) in
   go 1
 
+let show_optz = function Some v -> string_of_z v | None -> "U"
+let show_ptrans (t : ptrans) : string =
+  (match t.pt_date with
+   | None -> "U"
+   | Some (DJ d) -> "J " ^ string_of_z d
+   | Some (DN d) -> "N " ^ string_of_z d
+   | Some (DM (m, w, d)) -> "M " ^ string_of_z m ^ " " ^ string_of_z w ^ " " ^ string_of_z d)
+  ^ " / " ^ show_optz t.pt_time
+let show_posix (r : posix_tz option) : string =
+  match r with
+  | None -> "0"
+  | Some z -> Printf.sprintf "1 %s %s %s %s ; %s ; %s" (hex_of_bytes z.std_abbr) (show_optz z.std_offset)
+                (hex_of_bytes z.dst_abbr) (show_optz z.dst_offset) (show_ptrans z.dst_start) (show_ptrans z.dst_end)
+
 let run_case (a : string array) : string =
   let op = a.(0) in
   match op with
@@ -178,6 +192,9 @@ let run_case (a : string array) : string =
     let m = (match fixedOffsetFromName s with Some o -> "1 " ^ string_of_z o | None -> "0") in
     let sp = (match fixed_from_spec s with Some o -> "1 " ^ string_of_z o | None -> "0") in
     out m sp true
+  | "posix" ->
+    let s = bytes_of_hex a.(1) in
+    out (show_posix (parsePosixSpec s)) (show_posix (posix_spec s)) (nul_free s)
   | _ -> Driver_zone.run_case a
 
 let () =
